@@ -245,7 +245,10 @@ pub struct HvcCArray {
 }
 
 impl<R: Read + Seek> ReadBox<&mut R> for HvcCBox {
-    fn read_box(reader: &mut R, _size: u64) -> Result<Self> {
+    fn read_box(reader: &mut R, size: u64) -> Result<Self> {
+        let start = box_start(reader)?;
+        let end = start + size;
+
         let configuration_version = reader.read_u8()?;
         let params = reader.read_u8()?;
         let general_profile_space = (params & 0b11000000) >> 6;
@@ -278,6 +281,9 @@ impl<R: Read + Seek> ReadBox<&mut R> for HvcCBox {
 
             for _ in 0..num_nalus {
                 let size = reader.read_u16::<BigEndian>()?;
+                if reader.stream_position()? + size as u64 > end {
+                    return Err(Error::InvalidData("hvcc nal unit exceeds box"));
+                }
                 let mut data = vec![0; size as usize];
 
                 reader.read_exact(&mut data)?;
@@ -291,6 +297,8 @@ impl<R: Read + Seek> ReadBox<&mut R> for HvcCBox {
                 nalus,
             });
         }
+
+        skip_bytes_to(reader, start + size)?;
 
         Ok(HvcCBox {
             configuration_version,
